@@ -8,7 +8,8 @@
 //! sequence.
 //!
 //! Request: `cur <kind> <n> a=<gaps> p1=.. n1=.. [p2=.. n2=.. [p3=.. n3=..]] | <event>*`
-//!   kind: `single` | `bag` (LIFO processor) | `chain2` | `chain3` (separate `.layer()`s)
+//!   kind: `single` | `bag` (LIFO processor) | `hold` (item x is withheld until x+1 was processed)
+//!       | `chain2` | `chain3` (separate `.layer()`s)
 //!       | `comp2` | `comp3` (`PipelineBuilder::new().layer(..).layer(..)[.layer(..)].build()` in one layer)
 //!   events `<L><code>`: L = layer (chains) or 1 (composed); codes:
 //!     `u<x>` item x pulled from the input stream   `r<x>` process(x) entered   `d<x>` process(x) done
@@ -40,6 +41,10 @@ struct TestProc {
     layer: usize,
     stage: usize,
     lifo: bool,
+    /// withhold item x until item x+1 has been processed (the last item is released at once) — like an
+    /// orderer waiting for a dependency: an input may produce no output for a while
+    hold_until_next: Option<usize>,
+    held: RefCell<Vec<u32>>,
     pd: Vec<u64>,
     nd: Vec<u64>,
     queue: RefCell<VecDeque<u32>>,
@@ -72,7 +77,21 @@ impl Processor<u32> for TestProc {
         if d > 0 {
             tokio::time::sleep(Duration::from_millis(d)).await;
         }
-        self.queue.borrow_mut().push_back(x);
+        match self.hold_until_next {
+            None => self.queue.borrow_mut().push_back(x),
+            Some(n) => {
+                let mut held = self.held.borrow_mut();
+                let mut q = self.queue.borrow_mut();
+                for y in held.drain(..) {
+                    q.push_back(y);
+                }
+                if x as usize + 1 == n {
+                    q.push_back(x);
+                } else {
+                    held.push(x);
+                }
+            }
+        }
         self.notify.notify_one();
         g.msg = None;
         self.log.borrow_mut().push(if s == 1 { format!("{l}d{x}") } else { format!("{l}f{s}:{x}") });
@@ -109,6 +128,8 @@ fn proc_for(sc: &Script, layer: usize, stage: usize, lifo: bool, log: &Log) -> T
         layer,
         stage,
         lifo,
+        hold_until_next: if sc.kind == "hold" { Some(sc.n) } else { None },
+        held: RefCell::new(vec![]),
         pd: sc.pd[stage - 1 + if sc.kind.starts_with("chain") { layer - 1 } else { 0 }].clone(),
         nd: sc.nd[stage - 1 + if sc.kind.starts_with("chain") { layer - 1 } else { 0 }].clone(),
         queue: RefCell::new(VecDeque::new()),
@@ -149,6 +170,7 @@ async fn run_script(sc: &Script) -> (Vec<u32>, Vec<String>) {
     match sc.kind.as_str() {
         "single" => collect!(input.layer(proc_for(sc, 1, 1, false, &log)), 1),
         "bag" => collect!(input.layer(proc_for(sc, 1, 1, true, &log)), 1),
+        "hold" => collect!(input.layer(proc_for(sc, 1, 1, false, &log)), 1),
         "chain2" => {
             let l1 = log.clone();
             let s1 = input.layer(proc_for(sc, 1, 1, false, &log)).map(move |r| {
@@ -250,7 +272,7 @@ fn parse_script(req: &str) -> Script {
 
 fn stages_of(kind: &str) -> usize {
     match kind {
-        "single" | "bag" => 1,
+        "single" | "bag" | "hold" => 1,
         "chain2" | "comp2" => 2,
         _ => 3,
     }
@@ -358,7 +380,7 @@ fn main() {
         Tier::Thorough => 60_000,
         Tier::Search => 6_000,
     };
-    let kinds = ["single", "bag", "chain2", "chain3", "comp2", "comp2", "comp3"];
+    let kinds = ["single", "bag", "hold", "chain2", "chain3", "comp2", "comp2", "comp3"];
     for i in 0..n_scripts {
         let kind = kinds[i % kinds.len()];
         let n = if rng.chance(1, 10) { rng.range(20, 40) } else { rng.range(1, 12) } as usize;
